@@ -192,17 +192,36 @@ fn dec_case(wttl: u32) -> Value {
 }
 
 /// C43: inbound AddProvider(sender, announced provider)
-fn addp_case(sender: u64, provider: u64, filter: bool, pre: bool) -> Value {
-    let base = json!({"m": "addp", "sender": sender, "provider": provider, "filt": filter, "pre": pre});
+/// peers 1..=3 have an established inbound connection (ids 1..=3) to the behaviour
+fn connect_all(b: &mut Behaviour<MemoryStore>) -> Vec<libp2p_swarm::THandler<Behaviour<MemoryStore>>> {
+    use libp2p_core::ConnectedPoint;
+    use libp2p_swarm::behaviour::{ConnectionEstablished, FromSwarm};
+    let mut hs = vec![];
+    for i in 1..=3u64 {
+        let local: Multiaddr = "/ip4/10.0.0.1/tcp/1".parse().unwrap();
+        let remote: Multiaddr = format!("/ip4/10.0.0.{}/tcp/1", 10 + i).parse().unwrap();
+        let cid = ConnectionId::new_unchecked(i as usize);
+        hs.push(b.handle_established_inbound_connection(cid, peer(i), &local, &remote).expect("accepted"));
+        let ep = ConnectedPoint::Listener { local_addr: local, send_back_addr: remote };
+        b.on_swarm_event(FromSwarm::ConnectionEstablished(ConnectionEstablished { peer_id: peer(i), connection_id: cid, endpoint: &ep, failed_addresses: &[], other_established: 0 }));
+    }
+    hs
+}
+
+fn addp_case(sender: u64, provider: u64, filter: bool, pre: bool, conn: bool) -> Value {
+    let base = json!({"m": "addp", "sender": sender, "provider": provider, "filt": filter, "pre": pre, "conn": conn});
     let r = vcommon::guard(|| {
         let mut b = behaviour(Some(3_600_000_000), Some(3_600_000_000), filter, 0);
+        // the announced provider (and the sender) may be peers the node is connected to
+        let _handlers = if conn { connect_all(&mut b) } else { vec![] };
+        drain(&mut b);
         let mut ev = base.clone();
         if pre {
             // an existing provider record for the same key from an honest third peer
             b.store_mut().add_provider(ProviderRecord::new(key(1), peer(5), vec![])).unwrap();
         }
         let kp = KadPeer { node_id: peer(provider), multiaddrs: vec!["/ip4/10.0.0.9/tcp/1".parse().unwrap()], connection_ty: ConnectionType::Connected };
-        b.on_connection_handler_event(peer(sender), ConnectionId::new_unchecked(1), HandlerEvent::AddProvider { key: key(1), provider: kp });
+        b.on_connection_handler_event(peer(sender), ConnectionId::new_unchecked(if conn && sender >= 1 { sender as usize } else { 1 }), HandlerEvent::AddProvider { key: key(1), provider: kp });
         let mut provs: Vec<i64> = b.store_mut().providers(&key(1)).iter().map(|p| abs_peer(&p.provider)).collect();
         provs.sort();
         ev["provs"] = json!(provs);
@@ -283,7 +302,7 @@ fn replay_one(v: &Value) -> Value {
         "merge" => merge_case(opt("rhas", "rexp"), opt("thas", "ttl"), vcommon::b(v, "filt"), vcommon::n(v, "nb") as u64),
         "wire" => wire_case(opt("rhas", "rem"), vcommon::b(v, "resp")),
         "dec" => dec_case(vcommon::n(v, "wttl") as u32),
-        "addp" => addp_case(vcommon::n(v, "sender") as u64, vcommon::n(v, "provider") as u64, vcommon::b(v, "filt"), vcommon::b(v, "pre")),
+        "addp" => addp_case(vcommon::n(v, "sender") as u64, vcommon::n(v, "provider") as u64, vcommon::b(v, "filt"), vcommon::b(v, "pre"), v.get("conn").and_then(|x| x.as_bool()).unwrap_or(false)),
         "putpub" => putpub_case(vcommon::n(v, "sender") as u64, vcommon::n(v, "pub"), vcommon::b(v, "filt"), vcommon::b(v, "pre")),
         m => panic!("record kind {m}"),
     }
@@ -354,7 +373,8 @@ pub fn main(a: &vcommon::Args) {
                 for provider in [0u64, 1, 2, 3] {
                     for filt in [false, true] {
                         for pre in [false, true] {
-                            out.ev(addp_case(sender, provider, filt, pre));
+                            out.ev(addp_case(sender, provider, filt, pre, false));
+                            out.ev(addp_case(sender, provider, filt, pre, true));
                         }
                     }
                 }
